@@ -48,7 +48,8 @@ FAMILIES = ["dense_act", "conv_po2", "inline_activation", "rnn", "linear_act", "
 
 def thresholds(tier):
   return {"A.interpolation_checked": 700, "A.surrogate_checked": 200, "B.histories": 80,
-          "B.hook_events": 900, "B.update_steps_checked": 250, "distinct_nontrivial": 700}
+          "B.hook_events": 900, "B.update_steps_checked": 250, "F.fits": 4, "F.update_steps_checked": 10,
+          "distinct_nontrivial": 700}
 
 
 def cases(tier, seed):
@@ -73,6 +74,14 @@ def cases(tier, seed):
                 "exponent": rnd.choice([0.5, 1.0, 3.0]), "update_freq": rnd.choice([1, 1, 2, 3]),
                 "freq_type": rnd.choice(["step", "epoch"]), "initial": rnd.choice([0, 0, 1, 4]),
                 "epochs": rnd.randint(1, 6), "steps": rnd.randint(1, 5), "use_ste": rnd.choice([True, False])})
+  # part F: the same trace specification observed through a real model.fit (hook order is Keras' own)
+  nf = 12 if tier == "quick" else 120
+  for i in range(nf):
+    start = rnd.choice([0, 1, 2, 3])
+    out.append({"part": "F", "family": rnd.choice(["dense_act", "conv_po2", "depthwise_hswish"]), "start": start,
+                "finish": start + rnd.choice([0, 1, 2, 4]), "exponent": rnd.choice([1.0, 3.0]),
+                "update_freq": rnd.choice([1, 2]), "freq_type": rnd.choice(["step", "epoch"]), "initial": rnd.choice([0, 1]),
+                "epochs": rnd.randint(2, 4), "steps": rnd.randint(2, 4), "use_ste": rnd.choice([True, False])})
   rnd.shuffle(out)
   for i, c in enumerate(out):
     c["idx"], c["seed"] = i, seed
@@ -350,8 +359,73 @@ def run_b(case, ctx):
               "trace_head": trace[:8], "n_knob_quantizers": len(everything), "n_driven": len(mine)})
 
 
+def run_f(case, ctx):
+  """A real training run: Keras itself calls the scheduler's hooks; a spy callback placed after it logs the factors."""
+  import tensorflow as tf
+  from vf import qenv
+  from qkeras.callbacks import QNoiseScheduler
+  fam = case["family"]
+  base = {"part": "F", "family": fam}
+  model = build_model(fam)
+  cb = QNoiseScheduler(start=case["start"], finish=case["finish"], freq_type=case["freq_type"],
+                       update_freq=case["update_freq"], initial_step_or_epoch=case["initial"],
+                       exponent=case["exponent"], use_ste=case["use_ste"])
+  log = []
+
+  class Spy(tf.keras.callbacks.Callback):
+    def __init__(self):
+      super().__init__()
+      self.epoch = -1
+      self.step = -1
+
+    def on_epoch_begin(self, epoch, logs=None):
+      self.epoch += 1
+      log.append(("epoch_begin", self.epoch, [float(np.asarray(qenv.as_np(q.qnoise_factor))) for q in (cb.quantizers or [])]))
+
+    def on_train_batch_begin(self, batch, logs=None):
+      self.step += 1
+      log.append(("batch_begin", self.step, [float(np.asarray(qenv.as_np(q.qnoise_factor))) for q in (cb.quantizers or [])]))
+
+  rng = np.random.default_rng(case["seed"] * 17 + case["idx"])
+  n = case["steps"] * 2
+  x = rng.normal(0, 1, size=(n,) + tuple(model.input_shape[1:])).astype(np.float32)
+  y = rng.normal(0, 1, size=(n,) + tuple(model.output_shape[1:])).astype(np.float32)
+  model.compile(optimizer=tf.keras.optimizers.SGD(1e-3), loss="mse")
+  ok, _ = ctx.call(dict(base, op="fit"), lambda: model.fit(x, y, batch_size=2, epochs=case["epochs"], verbose=0, callbacks=[cb, Spy()]))
+  if not ok:
+    return
+  ctx.count("F.fits")
+  ctx.nontrivial("F", fam, case["start"], case["finish"], case["update_freq"], case["freq_type"], case["initial"], case["epochs"], case["steps"])
+  last = None
+  for hook, t0, vals in log:
+    ctx.count("F.hook_events")
+    if not vals:
+      continue
+    if max(vals) - min(vals) > 1e-7:
+      ctx.violation(dict(base, kind="knobs_disagree"), "%s %d: %r" % (hook, t0, vals), None)
+      return
+    v = vals[0]
+    if last is not None and v < last - 1e-7:
+      ctx.violation(dict(base, kind="factor_decreased"), "%s %d: %r -> %r" % (hook, t0, last, v), {"log": log[:12]})
+    last = v
+    clock = "batch_begin" if case["freq_type"] == "step" else "epoch_begin"
+    if hook == clock:
+      t = case["initial"] + t0
+      if t % case["update_freq"] == 0:
+        ctx.count("F.update_steps_checked")
+        ctx.evals(1)
+        if t < case["start"] and abs(v) > 1e-7:
+          ctx.violation(dict(base, kind="nonzero_before_start"), "t=%d < start=%d: %r" % (t, case["start"], v), {"log": log[:12]})
+        if t >= case["finish"] and abs(v - 1.0) > 1e-7:
+          ctx.violation(dict(base, kind="not_one_from_finish"), "t=%d >= finish=%d: %r" % (t, case["finish"], v), {"log": log[:12]})
+  ctx.sample({"part": "F", "schedule": {k: case[k] for k in ("family", "start", "finish", "update_freq", "freq_type", "initial", "epochs", "steps")},
+              "log_head": log[:6]})
+
+
 def run_case(case, ctx):
   if case["part"] == "A":
     run_a(case, ctx)
+  elif case["part"] == "F":
+    run_f(case, ctx)
   else:
     run_b(case, ctx)
